@@ -1036,6 +1036,10 @@ pub fn replay_sweep(kind: &str, case: &Value) -> Option<Vec<(usize, String, Stri
             let route = ROUTES.iter().position(|r| Some(*r) == case.get("route").and_then(|v| v.as_str()))?;
             ctor_case(route, case.get("text")?.as_str()?)
         }
+        "decoder_growth" => match super::grids::c12_decoder_case(u("decoder")?, u("n")?, u("k")?) {
+            Some(v) => Err((v.clause, v.detail)),
+            None => Ok(()),
+        },
         "decoder" => decoder_case(u("decoder")?, case.get("text")?.as_str()?).map(|_| ()),
         "global_refusal" => global_refusal_case(u("entry")?, case.get("k").and_then(|v| v.as_u64())).map(|_| ()),
         "short_value" => {
